@@ -20,6 +20,8 @@ def make_plan(seed: int, tier: str, opts: dict) -> dict:
     eps = [driver.gen_episode(r, j, open_loop=spec["open_loop"], nsteps=r.randint(3, opts.get("max_steps", 9)), endings=("stop",), override_p=0.0) for j in range(n_eps)]
     pairs = [(m, p) for m in compiled.MODES for p in (True, False)]
     r.shuffle(pairs)
+    for ep in eps:
+        ep["until_active"] = True
     return dict(spec=spec, seed=seed, episodes=eps, clock="sim", line_rate=0.0, compile=[dict(mode=m, prune=p, api=r.choice(APIS)) for m, p in pairs[:opts.get("pairs", 1)]])
 
 
